@@ -169,6 +169,37 @@ func jobC14DefaultSource(c *rt.Ctx) {
 func jobC14(c *rt.Ctx) {
 	c.Require("gen/ok", "gen/fail", "equal/flip", "equal/same", "equal/foreign", "accessor")
 	jobC14DefaultSource(c)
+	// a reader that fills the buffer from ANOTHER goroutine (an entropy daemon, a request queue) while the
+	// calling goroutine's stack is relocated in between (the Read method recurses deeply before the
+	// fill): the 32 bytes delivered are the seed of the returned key, wherever the buffer lives
+	c.Require("gen/handoff-reader")
+	for _, depth := range []int{0, 1 << 10, 16 << 10, 512 << 10} {
+		if !c.Take() {
+			continue
+		}
+		c.Class("gen/handoff-reader")
+		c.Distinct(fmt.Sprintf("handoff %d", depth), true)
+		seed := make([]byte, 32)
+		for i := range seed {
+			seed[i] = byte(i*5 + 1 + depth>>10)
+		}
+		rd := &handoffReader{data: seed, growBytes: depth}
+		done := make(chan struct{})
+		var pub PublicKey
+		var priv PrivateKey
+		var err error
+		go func() { // a fresh goroutine: small stack, sure to be relocated by the recursion
+			defer close(done)
+			pub, priv, err = GenerateKey(rd)
+		}()
+		<-done
+		c.Step(1)
+		want := stded.NewKeyFromSeed(seed)
+		if err != nil || !bytes.Equal(priv, want) || !bytes.Equal(pub, want[32:]) {
+			c.Violation("C14 generate handoff-reader", fmt.Sprintf("GenerateKey with a reader that fills its buffer from another goroutine after the caller's stack grew by %d bytes: err=%v, key differs from NewKeyFromSeed(delivered bytes): seed part %x, delivered %x", depth, err, []byte(priv[:minI(32, len(priv))]), seed),
+				map[string]interface{}{"stack_growth_bytes": depth, "delivered": ref.Hex(seed), "observed_key": ref.Hex(priv)})
+		}
+	}
 	// held results: keys, Seed() and Public() values of 40 GenerateKey calls kept by the caller, each then
 	// used as the caller's own buffer; every other one still reads as it must
 	c.Require("held-results")
@@ -473,4 +504,39 @@ func jobC14(c *rt.Ctx) {
 			}
 		}
 	}
+}
+
+// handoffReader hands the buffer to a worker goroutine, grows the calling goroutine's stack by
+// growBytes (which relocates it), and only then lets the worker fill the buffer.
+type handoffReader struct {
+	data      []byte
+	off       int
+	growBytes int
+}
+
+//go:noinline
+func growStack(n int) byte {
+	var pad [256]byte
+	pad[n&255] = byte(n)
+	if n <= 0 {
+		return pad[0]
+	}
+	return growStack(n-256) + pad[(n+1)&255]
+}
+
+func (h *handoffReader) Read(p []byte) (int, error) {
+	if h.off >= len(h.data) {
+		return 0, io.EOF
+	}
+	fill := make(chan struct{})
+	done := make(chan int)
+	go func() {
+		<-fill
+		done <- copy(p, h.data[h.off:])
+	}()
+	growStack(h.growBytes)
+	close(fill)
+	n := <-done
+	h.off += n
+	return n, nil
 }
